@@ -458,7 +458,14 @@ class SkipgramVectorizer(BaseEstimator, TransformerMixin):
             tuple(*self.kernel_args.values()),
         )
 
-        base_matrix = scipy.sparse.coo_matrix((data, (row, col)))
+        # The shape is fixed by the fitted model, it cannot be inferred from X: skip-grams whose
+        # column code lies beyond the columns seen at fit time have no column to land in.
+        n_columns = len(self._column_is_kept)
+        in_range = col < n_columns
+        base_matrix = scipy.sparse.coo_matrix(
+            (data[in_range], (row[in_range], col[in_range])),
+            shape=(len(token_sequences), n_columns),
+        )
         result = base_matrix.tocsc()[:, self._column_is_kept].tocsr()
 
         return result
